@@ -243,7 +243,10 @@ fn build_privfull(n: usize, fake: bool) -> (Built, Vec<Target>, Vec<u64>, Privat
     for h in &vo.constants_sigmas_cap.0 {
         expected.extend(felts_u64(&h.elements));
     }
-    let named = vec![("vk".to_string(), rec[0].clone())];
+    let mut named = vec![("vk".to_string(), rec[0].clone())];
+    for (i, p) in t.leaf_proofs.iter().enumerate() {
+        named.push((format!("child_{i}_pis"), p.public_inputs.clone()));
+    }
     let mut consts = vec![("vk_expected".to_string(), expected.clone())];
     if !fake {
         // supporting concrete observation (not a solver claim): a child circuit with 20 public inputs is refused
@@ -269,12 +272,16 @@ fn build_pubfull(m: usize, n: usize) -> Built {
         .expect("public batch circuit");
     let rec = take_recorded_vk_targets();
     assert_eq!(rec.len(), 1);
+    let mut named = vec![("vk".to_string(), rec[0].clone())];
+    for (i, p) in circ.targets().private_batch_proofs.iter().enumerate() {
+        named.push((format!("child_{i}_pis"), p.public_inputs.clone()));
+    }
     let data = circ.build_circuit();
     let mut expected: Vec<u64> = felts_u64(&inner.data.verifier_only.circuit_digest.elements);
     for h in &inner.data.verifier_only.constants_sigmas_cap.0 {
         expected.extend(felts_u64(&h.elements));
     }
-    Built { name: format!("pubfull_{m}_{n}"), data, named: vec![("vk".to_string(), rec[0].clone())], consts: vec![("vk_expected".to_string(), expected)], leaf_targets: None }
+    Built { name: format!("pubfull_{m}_{n}"), data, named, consts: vec![("vk_expected".to_string(), expected)], leaf_targets: None }
 }
 
 /// Replay of a "verifier key is not pinned" counterexample: the repo's own foreign-circuit attack,
@@ -324,6 +331,63 @@ fn vk_attack() -> (bool, Vec<u64>, String) {
     match adversarial_witness(&built.data, &preset) {
         Ok(w) => prove_and_verify(&built.data, w),
         Err(e) => (false, vec![], e),
+    }
+}
+
+/// Replay of a "slot `slot` is not bound to a recursive verifier" counterexample: the REAL private-batch
+/// constructor over a 2-slot batch, a genuine child proof (dummy statement) in the other slot and a valid
+/// proof of a same-shape FOREIGN circuit (different verifier key; the pinned child verifier rejects it
+/// natively) in `slot`; the key wires keep their pinned constants. Accepted = the slot is not verified.
+fn slot_attack(slot: usize) -> (bool, Vec<u64>, String) {
+    let (built, _vk_targets, _expected, t) = build_privfull(2, true);
+    let (mal, mal_pis) = fake_leaf(false);
+    let (legit, legit_pis) = fake_leaf(true);
+    if legit.common != mal.common || legit.verifier_only.circuit_digest == mal.verifier_only.circuit_digest {
+        return (false, vec![], "could not build a same-shape foreign circuit with a different key".into());
+    }
+    let mut pw = PartialWitness::new();
+    for (i, tg) in mal_pis.iter().enumerate() {
+        let v = if i == 1 { 5 } else if i == 3 { 20000 } else if i >= 16 && i < 20 { 7 } else { 0 };
+        pw.set_target(*tg, F::from_canonical_u64(v)).unwrap();
+    }
+    let mal_proof = match mal.prove(pw) {
+        Ok(p) => p,
+        Err(e) => return (false, vec![], format!("could not prove the foreign circuit: {e}")),
+    };
+    if legit.verify(mal_proof.clone()).is_ok() {
+        return (false, vec![], "the pinned child verifier accepts the foreign proof (not a foreign proof)".into());
+    }
+    let mut pw = PartialWitness::new();
+    for tg in legit_pis.iter() {
+        pw.set_target(*tg, F::ZERO).unwrap();
+    }
+    let genuine = match legit.prove(pw) {
+        Ok(p) => p,
+        Err(e) => return (false, vec![], format!("could not prove the genuine dummy child: {e}")),
+    };
+    let mut pw = PartialWitness::new();
+    for (i, pt) in t.leaf_proofs.iter().enumerate() {
+        let pr = if i == slot { &mal_proof } else { &genuine };
+        if let Err(e) = pw.set_proof_with_pis_target(pt, pr) {
+            return (false, vec![], format!("proof does not fit the proof target: {e}"));
+        }
+    }
+    for pre in &t.dummy_nullifier_pre_images {
+        for (i, tg) in pre.iter().enumerate() {
+            pw.set_target(*tg, F::from_canonical_u64(i as u64 + 1)).unwrap();
+        }
+    }
+    let res = std::panic::catch_unwind(std::panic::AssertUnwindSafe(|| built.data.prove(pw)));
+    match res {
+        Ok(Ok(proof)) => {
+            let pis = felts_u64(&proof.public_inputs);
+            match built.data.verify(proof) {
+                Ok(()) => (true, pis, format!("the real 2-slot private-batch circuit proved and verified a batch whose slot {slot} holds a proof of a FOREIGN circuit")),
+                Err(e) => (false, pis, format!("proof produced but rejected by the verifier: {e}")),
+            }
+        }
+        Ok(Err(e)) => (false, vec![], format!("real prover rejects the foreign proof in slot {slot}: {e}")),
+        Err(_) => (false, vec![], format!("real prover panics on the foreign proof in slot {slot}")),
     }
 }
 
@@ -616,7 +680,7 @@ fn cmd_emit(args: &[String]) {
             }
         }
         let s = if b.name.starts_with("privfull") || b.name.starts_with("pubfull") {
-            ir::emit_filtered(&b.name, &b.data, &b.named, &b.consts, &wits, "ConstantGate")
+            ir::emit_filtered(&b.name, &b.data, &b.named, &b.consts, &wits, "ConstantGate|PoseidonGate")
         } else {
             ir::emit(&b.name, &b.data, &b.named, &b.consts, &wits)
         };
@@ -644,6 +708,8 @@ fn cmd_replay(args: &[String]) {
         let mode = a.get("mode").and_then(|l| l.as_str()).unwrap_or("honest");
         let (ok, pis, msg) = if mode == "vk_attack" {
             vk_attack()
+        } else if mode == "slot_attack" {
+            slot_attack(a.get("slot").and_then(|v| v.as_u64()).unwrap_or(1) as usize)
         } else if mode == "honest" {
             let pw = pw_from_named(&b, a.get("named").unwrap_or(&Value::Null));
             match plonky2::iop::generator::generate_partial_witness(pw, &b.data.prover_only, &b.data.common) {
